@@ -3,7 +3,7 @@
    (Model and theorems describe the code after the fix commits c6e92489, 9b0c17fd, 47f6ad08: no domain restriction left.) *)
 From Coq Require Import List ZArith NArith Bool Permutation.
 From Scalibr Require Import Walk.Model Walk.Spec Walk.Sched Walk.Proofs Walk.Trace Walk.SpecProofs Walk.C01Proofs
-  Walk.SubdirProofs Walk.Witness.
+  Walk.SubdirProofs Walk.PathsProofs Walk.Witness.
 Import ListNotations.
 
 (* For every finite tree t (well-formed: entry names pairwise different, none "."), every configuration c
@@ -55,6 +55,17 @@ Theorem requested_file_direct : forall c t p n k sz d ff,
                  then map (fun e => (e, p)) (filter (fun e => req c e p sz no_ff) (c_exts c)) else [].
 Proof. exact requested_file_lemma. Qed.
 Print Assumptions requested_file_direct.
+
+(* A request for several paths is served path by path without interference: its Extract calls are the
+   concatenation, in request order, of the calls of the single-path requests -- whatever was requested before
+   (a directory with .gitignore files above it, a file, a missing path) leaves nothing behind in the walk context.
+   (Without the sub-directory cut-off, whose rule speaks about the whole list of requested paths.) *)
+Theorem requested_paths_independent : forall c t ps,
+  c_ignore_subdirs c = false -> fault_free t = true -> no_limits c = true -> no_xpanic c -> ps <> [] ->
+  (c_fatal c = false \/ forall p, In p ps -> lookup t p <> None) ->
+  fs_calls (set_paths c ps) t = flat_map (fun p => fs_calls (set_paths c [p]) t) ps.
+Proof. exact requested_paths_independent_lemma. Qed.
+Print Assumptions requested_paths_independent.
 
 (* non-vacuity, and the former defects as regression examples: a nested .gitignore; regex and glob both set
    (./a by the regex, ./b by the glob: nothing is scanned); a .gitignore in the scan root ("a": ./a and ./b/a ignored) *)
